@@ -153,6 +153,25 @@ def pool_items(idx, v, who="alice"):
     add("fail/DeriveKey-nomask", {"op": "DeriveKey", "uids": [idx["bob"]], "method": "HASH", "attrs": la, "dp": {"params": {"hash": "SHA_256"}, "data": "01"}})
     add("fail/DeriveKey-length", {"op": "DeriveKey", "uids": [sk_act], "method": "HASH", "attrs": [["Cryptographic Length", 12], ["Cryptographic Algorithm", "AES"]], "dp": {"params": {"hash": "SHA_256"}, "data": "01"}})
     add("fail/DeriveKey-dup-name", {"op": "DeriveKey", "uids": [sk_act], "method": "HASH", "attrs": la + [["Name", "x", 0], ["Name", "x", 1]], "dp": {"params": {"hash": "SHA_256"}, "data": "01"}})
+    # every creating operation x every attribute list position x attributes that are refused at
+    # different points (while the template is read, when the value is set on the object, ...)
+    poisons = [("dupnames", [["Name", "pz", 0], ["Name", "pz", 1]]),
+               ("names-noindex", [["Name", "pz1"], ["Name", "pz2"]]),
+               ("contact", [["Contact Information", "me"]]),
+               ("activation-date", [["Activation Date", 1_600_000_000]]),
+               ("state", [["State", "ACTIVE"]]),
+               ("uid", [["Unique Identifier", "77"]]),
+               ("custom", [["x-poison", "v"]]),
+               ("lease", [["Lease Time", 60]])]
+    for pl, pa in poisons:
+        add("fail/Create-poison-" + pl, F.create_item(extra_attrs=pa))
+        add("fail/Register-poison-" + pl, F.register_item("SymmetricKey", label="pz", extra_attrs=pa))
+        add("fail/DeriveKey-poison-" + pl, {"op": "DeriveKey", "uids": [sk_act], "method": "HASH", "attrs": la + pa,
+                                            "dp": {"params": {"hash": "SHA_256"}, "data": "01"}})
+        for pos in ("common", "public", "private"):
+            it = F.keypair_item()
+            it[pos] = it[pos] + pa
+            add("fail/CreateKeyPair-poison-%s-%s" % (pos, pl), it)
     add("fail/Locate-three-dates", {"op": "Locate", "attrs": [["Initial Date", 1], ["Initial Date", 2], ["Initial Date", 3]]})
     add("fail/Unsupported-Rekey", {"op": "Rekey", "uid": sk_act})
     if tuple(v) >= (1, 2):
